@@ -1,45 +1,648 @@
 package vc
 
 import (
+	"fmt"
 	"go/token"
 	"go/types"
+	"sort"
+	"strings"
 
 	"golang.org/x/tools/go/ssa"
 )
 
 // monitorRef links a held lock to the object spec it protects.
 type monitorRef struct {
-	spec *ObjectSpec
-	obj  *Term
+	spec  *ObjectSpec
+	obj   *Term
+	objT  types.Type // struct type of obj
+	entry *State     // state right after acquire (for old() in trans clauses)
 }
 
-func (c *VCtx) checkAccess(fr *Frame, st *State, l *Loc, write bool, pos token.Pos) {}
+// ---------- time and channels ----------
 
+// now returns the current abstract time; closed(ch) is closedAt(ch) <= now. closedAt is an immutable
+// (prophecy) function, so "closed" is monotone by construction and needs no quantified frame axioms.
+func (c *VCtx) now(st *State) *Term {
+	if t, ok := st.heaps["G:now"]; ok {
+		return t
+	}
+	c.heapSorts["G:now"] = SInt
+	t := c.declare(c.heapName("G:now", st.epoch), SInt)
+	if !c.declSet["nowpos:"+t.S] {
+		c.declSet["nowpos:"+t.S] = true
+		c.facts0(Ge(t, IntLit(0)))
+	}
+	return t
+}
+
+func (c *VCtx) closedAt(ch *Term) *Term {
+	fn := c.declareFun("closedAt", []Sort{SRef}, SInt)
+	return T(SInt, fmt.Sprintf("(%s %s)", fn, ch.S))
+}
+
+// closedAt(ch) < 0 means "never closed".
+func (c *VCtx) isClosed(st *State, ch *Term) *Term {
+	return And(Ge(c.closedAt(ch), IntLit(0)), Le(c.closedAt(ch), c.now(st)))
+}
+
+// atomicHook is called before (pre=true) and after an atomic operation on location l.
+func (c *VCtx) atomicHook(fr *Frame, st *State, l *Loc, pre bool) {}
+
+// observe lets an arbitrary amount of time pass (other threads may have closed channels / cancelled contexts).
+func (c *VCtx) observe(st *State) {
+	old := c.now(st)
+	n := c.fresh("now", SInt)
+	c.fact(Ge(n, old))
+	st.heaps["G:now"] = n
+}
+
+// tick advances time by one step and returns the new time.
+func (c *VCtx) tick(st *State) *Term {
+	old := c.now(st)
+	n := c.fresh("now", SInt)
+	c.defFact(n, Eq(n, Add(old, IntLit(1))))
+	st.heaps["G:now"] = n
+	return n
+}
+
+// ---------- object specs ----------
+
+func (c *VCtx) objectSpec(t types.Type) *ObjectSpec {
+	if p, ok := t.(*types.Pointer); ok {
+		t = p.Elem()
+	}
+	n, ok := t.(*types.Named)
+	if !ok {
+		return nil
+	}
+	n = n.Origin()
+	if n.Obj().Pkg() == nil {
+		return nil
+	}
+	ps := c.eng.Specs[n.Obj().Pkg().Path()]
+	if ps == nil {
+		return nil
+	}
+	return ps.Objects[n.Obj().Name()]
+}
+
+// protection of a struct field: "guarded", "atomic", "immutable", "" (type has no object spec), "undeclared".
+type protection struct {
+	kind  string
+	spec  *ObjectSpec // spec that declares it
+	owner bool        // field belongs to the spec's own type (else: sub-object field guarded by the spec's lock)
+}
+
+func (c *VCtx) fieldProtection(heap string) *protection {
+	// heap = "F:pkg.Type.field"
+	if !strings.HasPrefix(heap, "F:") {
+		return nil
+	}
+	rest := heap[2:]
+	i := strings.LastIndex(rest, ".")
+	tkey, field := rest[:i], rest[i+1:]
+	j := strings.LastIndex(tkey, ".")
+	if j < 0 {
+		return nil
+	}
+	pkgShort, tname := tkey[:j], tkey[j+1:]
+	ps := c.eng.Specs[ModPath+"/"+pkgShort]
+	if ps == nil {
+		return nil
+	}
+	if sp := ps.Objects[tname]; sp != nil {
+		for _, g := range sp.Guarded {
+			if g == field {
+				return &protection{"guarded", sp, true}
+			}
+		}
+		for _, g := range sp.Atomic {
+			if g == field {
+				return &protection{"atomic", sp, true}
+			}
+		}
+		for _, g := range sp.Immut {
+			if g == field {
+				return &protection{"immutable", sp, true}
+			}
+		}
+	}
+	// sub-object field guarded by another type's lock
+	var names []string
+	for n := range ps.Objects {
+		names = append(names, n)
+	}
+	sort.Strings(names)
+	for _, n := range names {
+		sp := ps.Objects[n]
+		for _, g := range sp.Guarded {
+			if g == tname+"."+field {
+				return &protection{"guarded", sp, false}
+			}
+		}
+		for _, g := range sp.Immut {
+			if g == tname+"."+field {
+				return &protection{"immutable", sp, false}
+			}
+		}
+	}
+	if ps.Objects[tname] != nil {
+		return &protection{"undeclared", ps.Objects[tname], true}
+	}
+	return nil
+}
+
+// staticObl records an obligation decided by the engine itself (lock-set discipline).
+func (c *VCtx) staticObl(kind, desc string, ok bool, why string) {
+	name := shortPkg(fnPkgPath(c.top)) + "." + FuncKey(c.top) + "#" + c.oblName(kind)
+	o := &Obligation{Name: name, Props: c.ownProps(), Kind: kind, Func: FuncKey(c.top), Desc: desc, Static: true}
+	if ok {
+		o.Result, o.Solver = "unsat", "lockset"
+	} else {
+		o.Result, o.Solver, o.Output = "failed", "lockset", why
+	}
+	c.obls = append(c.obls, o)
+}
+
+// ownProps: ownership obligations count for the function's properties and for C13.
+func (c *VCtx) ownProps() []string {
+	ps := append([]string{}, c.props...)
+	for _, p := range ps {
+		if p == "C13" {
+			return ps
+		}
+	}
+	return append(ps, "C13")
+}
+
+func isFreshRef(t *Term) bool {
+	return strings.HasPrefix(t.S, "new!") || strings.HasPrefix(t.S, "(addr!") && strings.Contains(t.S, " new!")
+}
+
+func (c *VCtx) checkAccess(fr *Frame, st *State, l *Loc, write bool, pos token.Pos) {
+	if fr == nil || l.Kind != "field" {
+		return
+	}
+	p := c.fieldProtection(l.Heap)
+	if p == nil {
+		return
+	}
+	what := "read"
+	if write {
+		what = "write"
+	}
+	desc := fmt.Sprintf("%s of %s at %s is protected (%s)", what, l.Heap[2:], c.eng.pos(pos), p.kind)
+	kind := "own." + l.Heap[2:]
+	switch p.kind {
+	case "guarded":
+		if isFreshRef(l.Base) {
+			c.staticObl(kind, desc, true, "")
+			return
+		}
+		for _, h := range st.held {
+			for _, m := range h.specs {
+				if m.spec == p.spec && (!p.owner || m.obj.S == l.Base.S) {
+					if write && !h.write {
+						c.staticObl(kind, desc, false, "write while holding only the read lock")
+						return
+					}
+					c.staticObl(kind, desc, true, "")
+					return
+				}
+			}
+		}
+		c.staticObl(kind, desc, false, fmt.Sprintf("field is guarded by %s.%s but that lock is not held here (held: %s)", p.spec.Type, p.spec.Lock, heldNames(st)))
+	case "immutable":
+		if !write || isFreshRef(l.Base) {
+			c.staticObl(kind, desc, true, "")
+			return
+		}
+		c.staticObl(kind, desc, false, "write to a field declared immutable after construction")
+	case "atomic":
+		c.staticObl(kind, desc, false, "plain access to a field declared atomic")
+	case "undeclared":
+		c.staticObl(kind, desc, false, "field of a concurrency-safe type without a declared protection")
+	}
+}
+
+func heldNames(st *State) string {
+	var xs []string
+	for k := range st.held {
+		xs = append(xs, k)
+	}
+	sort.Strings(xs)
+	if len(xs) == 0 {
+		return "none"
+	}
+	return strings.Join(xs, ", ")
+}
+
+// checkMapAccess: the contents of a map stored in a guarded field are protected like the field.
 func (c *VCtx) checkMapAccess(fr *Frame, st *State, m *Term, mv ssa.Value, write bool, pos token.Pos) {
+	if fr == nil {
+		return
+	}
+	// find the field the map value was loaded from
+	u, ok := mv.(*ssa.UnOp)
+	if !ok {
+		return
+	}
+	fa, ok := u.X.(*ssa.FieldAddr)
+	if !ok {
+		return
+	}
+	stT := deref(fa.X.Type())
+	f := stT.Underlying().(*types.Struct).Field(fa.Field)
+	base, ok := fr.env[fa.X].(*Term)
+	if !ok {
+		return
+	}
+	l := &Loc{Kind: "field", Heap: fieldHeapName(stT, f.Name()), Base: base}
+	p := c.fieldProtection(l.Heap)
+	if p == nil || p.kind != "guarded" {
+		return
+	}
+	// contents access counts as access of the field itself (write if the map is mutated)
+	c.checkAccess(fr, st, l, write, pos)
 }
 
-func (c *VCtx) noteClose(fr *Frame, st *State, ch *Term)                 {}
-func (c *VCtx) noteCallback(fr *Frame, st *State, f *Term, args []Val)  {}
-func (c *VCtx) monitorEntry(fr *Frame, st *State, ct *FuncContract)     {}
-func (c *VCtx) monitorExit(fr *Frame, st *State, ct *FuncContract)      {}
+// ---------- acquire / release ----------
 
-func (c *VCtx) ghostHeap(pkg, name string) (string, Sort) {
-	unsup("unknown ghost heap %s", name)
-	return "", ""
+type lockOwner struct {
+	obj  *Term
+	typ  types.Type
+	path string
+}
+
+// lockOwners lists the objects whose declared lock is the mutex at address t.
+func (c *VCtx) lockOwners(t *Term) []lockOwner {
+	var out []lockOwner
+	info := c.embedded[t.S]
+	if info == nil {
+		return nil
+	}
+	for i := range info.chain {
+		lk := info.chain[i]
+		path := strings.Join(info.path[i:], ".")
+		if sp := c.objectSpec(lk.typ); sp != nil && sp.Lock == path {
+			out = append(out, lockOwner{lk.term, lk.typ, path})
+		}
+	}
+	return out
+}
+
+func (c *VCtx) guardedHeaps(sp *ObjectSpec, objT types.Type) (own []string, whole []string) {
+	pkgPath := sp.Pkg
+	tp := c.eng.TPkgs[pkgPath]
+	add := func(structT types.Type, field string, isOwn bool) {
+		stt, ok := structT.Underlying().(*types.Struct)
+		if !ok {
+			return
+		}
+		for i := 0; i < stt.NumFields(); i++ {
+			f := stt.Field(i)
+			if f.Name() != field {
+				continue
+			}
+			hn := fieldHeapName(structT, field)
+			c.heapSorts[hn] = ArrSort(SRef, sortOf(f.Type()))
+			if isOwn {
+				own = append(own, hn)
+			} else {
+				whole = append(whole, hn)
+			}
+			// contents reachable through the field
+			switch ft := f.Type().Underlying().(type) {
+			case *types.Map:
+				d, v, cd := mapHeapNames(ft)
+				ks, vs := sortOf(ft.Key()), sortOf(ft.Elem())
+				c.heapSorts[d] = ArrSort(SRef, ArrSort(ks, SBool))
+				c.heapSorts[v] = ArrSort(SRef, ArrSort(ks, vs))
+				c.heapSorts[cd] = ArrSort(SRef, SInt)
+				whole = append(whole, d, v, cd)
+				if sl, ok := ft.Elem().Underlying().(*types.Slice); ok {
+					es := sortOf(sl.Elem())
+					c.heapSorts[elemHeapName(es)] = ArrSort(SRef, ArrSort(SInt, es))
+					whole = append(whole, elemHeapName(es))
+				}
+			case *types.Slice:
+				es := sortOf(ft.Elem())
+				c.heapSorts[elemHeapName(es)] = ArrSort(SRef, ArrSort(SInt, es))
+				whole = append(whole, elemHeapName(es))
+			}
+		}
+	}
+	for _, g := range sp.Guarded {
+		if tn, fld, ok := strings.Cut(g, "."); ok {
+			if obj := tp.Types.Scope().Lookup(tn); obj != nil {
+				add(obj.Type(), fld, false)
+			}
+		} else {
+			add(objT, g, true)
+		}
+	}
+	for _, gf := range sp.Ghost {
+		name, sort := c.ghostFieldHeapFor(sp, gf)
+		c.heapSorts[name] = sort
+		own = append(own, name)
+	}
+	return
+}
+
+func (c *VCtx) acquire(fr *Frame, st *State, lock *Term, write bool, pos token.Pos) {
+	owners := c.lockOwners(lock)
+	if _, already := st.held[lock.S]; already {
+		c.staticObl("lock.reentry", "lock is not acquired while already held at "+c.eng.pos(pos), false, "the same mutex is locked twice on one path (deadlock)")
+	}
+	c.observe(st)
+	h := &heldLock{obj: lock, write: write}
+	for _, o := range owners {
+		sp := c.objectSpec(o.typ)
+		own, whole := c.guardedHeaps(sp, o.typ)
+		for _, hn := range own {
+			hs := c.heapSorts[hn]
+			cur := c.heap(st, hn, hs)
+			_, vs := arrParts(hs)
+			nv := c.fresh("hv", vs)
+			st.heaps[hn] = Store(cur, o.obj, nv)
+			st.heaps[hn] = c.name("h", st.heaps[hn])
+		}
+		seen := map[string]bool{}
+		for _, hn := range whole {
+			if !seen[hn] {
+				seen[hn] = true
+				c.havocHeap(st, hn)
+			}
+		}
+		h.specs = append(h.specs, &monitorRef{spec: sp, obj: o.obj, objT: o.typ})
+	}
+	st.held[lock.S] = h
+	// assume the invariants
+	for _, m := range h.specs {
+		sc := c.objScope(m, st, st)
+		for _, inv := range m.spec.Invs {
+			c.fact(Implies(st.pc, c.translateBool(sc, inv.E)))
+		}
+		m.entry = st.clone()
+	}
+}
+
+func (c *VCtx) objScope(m *monitorRef, st, old *State) *Scope {
+	sc := &Scope{c: c, vars: map[string]Val{}, st: st, old: old, pkg: m.spec.Pkg}
+	sc.vars["this"] = TG(SRef, types.NewPointer(m.objT), m.obj.S)
+	if c.me != nil {
+		sc.vars["me"] = c.me
+	}
+	return sc
+}
+
+func (c *VCtx) release(fr *Frame, st *State, lock *Term, pos token.Pos) {
+	h, ok := st.held[lock.S]
+	if !ok {
+		if len(c.lockOwners(lock)) > 0 {
+			c.staticObl("lock.unheld", "unlock of a lock that is held at "+c.eng.pos(pos), false, "Unlock on a path where the lock is not (provably) held")
+		}
+		return
+	}
+	c.csCount++
+	for _, m := range h.specs {
+		sc := c.objScope(m, st, m.entry)
+		for i, inv := range m.spec.Invs {
+			g := c.translateBool(sc, inv.E)
+			c.proveP(m.spec.Props, fmt.Sprintf("cs%d.inv.%s.%s", c.csCount, m.spec.Type, clauseLabel(inv, i)),
+				fmt.Sprintf("object invariant of %s restored at unlock (%s): %s", m.spec.Type, c.eng.pos(pos), inv.Src), st.pc, g)
+		}
+		for i, tr := range m.spec.Trans {
+			g := c.translateBool(sc, tr.E)
+			c.proveP(m.spec.Props, fmt.Sprintf("cs%d.trans.%s.%s", c.csCount, m.spec.Type, clauseLabel(tr, i)),
+				fmt.Sprintf("two-state guarantee of %s over the critical section (%s): %s", m.spec.Type, c.eng.pos(pos), tr.Src), st.pc, g)
+		}
+	}
+	delete(st.held, lock.S)
+}
+
+// proveP is prove with extra property tags (the object's properties).
+func (c *VCtx) proveP(extra []string, kind, desc string, guard, goal *Term) {
+	c.prove(kind, desc, guard, goal, nil)
+	o := c.obls[len(c.obls)-1]
+	ps := append([]string{}, o.Props...)
+	for _, p := range extra {
+		found := false
+		for _, q := range ps {
+			if q == p {
+				found = true
+			}
+		}
+		if !found {
+			ps = append(ps, p)
+		}
+	}
+	o.Props = ps
+}
+
+// ---------- ghost fields ----------
+
+func (c *VCtx) ghostFieldHeapFor(sp *ObjectSpec, gf SpecParam) (string, Sort) {
+	sc := &Scope{c: c, pkg: sp.Pkg}
+	s, _ := c.specSort(sc, gf.Type)
+	return "G:" + shortPkg(sp.Pkg) + "." + sp.Type + "." + gf.Name, ArrSort(SRef, s)
 }
 
 func (c *VCtx) ghostFieldHeap(stT types.Type, field string) (string, Sort) {
+	sp := c.objectSpec(stT)
+	if sp == nil {
+		return "", ""
+	}
+	for _, gf := range sp.Ghost {
+		if gf.Name == field {
+			return c.ghostFieldHeapFor(sp, gf)
+		}
+	}
 	return "", ""
 }
 
-func (c *VCtx) ghostCall(sc *Scope, x *ECall) (Val, bool) { return nil, false }
+// ghostHeap resolves a package-level ghost map "name: K -> V".
+func (c *VCtx) ghostHeap(pkg, name string) (string, Sort) {
+	ps := c.eng.Specs[pkg]
+	if ps != nil {
+		for _, g := range ps.Ghosts {
+			if g.Name == name {
+				k, v, ok := strings.Cut(g.Type, "->")
+				if !ok {
+					unsup("ghostmap %s needs K -> V", name)
+				}
+				sc := &Scope{c: c, pkg: pkg}
+				ks, _ := c.specSort(sc, strings.TrimSpace(k))
+				vs, _ := c.specSort(sc, strings.TrimSpace(v))
+				return "G:" + shortPkg(pkg) + "." + name, ArrSort(ks, vs)
+			}
+		}
+	}
+	unsup("unknown ghost map %s", name)
+	return "", ""
+}
+
+func (c *VCtx) ghostCall(sc *Scope, x *ECall) (Val, bool) {
+	// name(k): lookup in a package-level ghost map
+	ps := c.eng.Specs[sc.pkg]
+	if ps == nil {
+		return nil, false
+	}
+	for _, g := range ps.Ghosts {
+		if g.Name == x.Fn && len(x.Args) == 1 {
+			name, sort := c.ghostHeap(sc.pkg, g.Name)
+			h := c.heap(sc.state(), name, sort)
+			return Select(h, c.asTerm(c.translate(sc, x.Args[0]))), true
+		}
+	}
+	return nil, false
+}
+
+// ---------- hooks used by the executor ----------
+
+func (c *VCtx) noteClose(fr *Frame, st *State, ch *Term)                {}
+func (c *VCtx) noteCallback(fr *Frame, st *State, f *Term, args []Val) {}
+
+// monitorEntry / monitorExit: ghost statements at function entry and exit.
+func (c *VCtx) monitorEntry(fr *Frame, st *State, ct *FuncContract) {
+	c.runGhost(fr, st, ct, "entry")
+}
+
+func (c *VCtx) monitorExit(fr *Frame, st *State, ct *FuncContract) {
+	if len(st.held) > 0 {
+		c.staticObl("lock.leak", "no lock is still held when the function returns", false, "returns while holding "+heldNames(st))
+	}
+}
+
+// runGhost executes the ghost assignments attached to a program point: "g[k] := e" or "x.g := e".
+func (c *VCtx) runGhost(fr *Frame, st *State, ct *FuncContract, at string) {
+	if ct == nil {
+		return
+	}
+	for _, g := range ct.Ghost {
+		if g.At != at {
+			continue
+		}
+		c.ghostAssign(fr, st, ct, g)
+	}
+}
+
+func (c *VCtx) ghostAssign(fr *Frame, st *State, ct *FuncContract, g *GhostStmt) {
+	lhsSrc, rhsSrc, ok := strings.Cut(g.Src, ":=")
+	if !ok {
+		unsup("ghost statement needs ':=' (%s)", g.Src)
+	}
+	lhs, err := ParseExpr(strings.TrimSpace(lhsSrc))
+	if err != nil {
+		unsup("ghost lhs: %v", err)
+	}
+	rhs, err := ParseExpr(strings.TrimSpace(rhsSrc))
+	if err != nil {
+		unsup("ghost rhs: %v", err)
+	}
+	sc := &Scope{c: c, vars: c.baseVars(fr), st: st, old: fr.entry, fr: fr, pkg: fnPkgPath(fr.fn), exitOf: fr.curBlock}
+	for i, p := range fr.fn.Params {
+		sc.vars[p.Name()] = fr.env[p]
+		if i == 0 && fr.fn.Signature.Recv() != nil {
+			sc.vars["this"] = fr.env[p]
+		}
+	}
+	v := c.asTerm(c.translate(sc, rhs))
+	switch l := lhs.(type) {
+	case *EField:
+		base := c.asTerm(c.translate(sc, l.X))
+		stT := base.GT
+		if stT == nil {
+			unsup("ghost field of untyped value")
+		}
+		name, sort := c.ghostFieldHeap(stT, l.F)
+		if name == "" {
+			unsup("no ghost field %s", l.F)
+		}
+		h := c.heap(st, name, sort)
+		c.setHeap(st, name, Store(h, base, v))
+	case *ECall:
+		name, sort := c.ghostHeap(sc.pkg, l.Fn)
+		h := c.heap(st, name, sort)
+		k := c.asTerm(c.translate(sc, l.Args[0]))
+		c.setHeap(st, name, Store(h, k, v))
+	default:
+		unsup("ghost assignment target %T", lhs)
+	}
+}
+
+// ---------- channels ----------
 
 func (c *VCtx) recv(fr *Frame, st *State, x *ssa.UnOp) Val {
-	unsup("channel receive")
-	return nil
+	ch := fr.term(x.X)
+	c.blockingPoint(fr, st, x.Pos())
+	c.observe(st)
+	// a receive on a close-only channel returns only when it is closed (or blocks forever on nil)
+	et := x.X.Type().Underlying().(*types.Chan).Elem()
+	if isEmptyStruct(et) {
+		c.fact(Implies(st.pc, And(Not(Eq(ch, Null)), c.isClosed(st, ch))))
+		c.eng.assume("channels of element type struct{} are never sent on (close-only); a receive returns only after close")
+	}
+	v := c.freshVal("rcv", et)
+	if x.CommaOk {
+		ok := c.fresh("rcvok", SBool)
+		return Tuple{v, ok}
+	}
+	return v
+}
+
+func isEmptyStruct(t types.Type) bool {
+	s, ok := t.Underlying().(*types.Struct)
+	return ok && s.NumFields() == 0
+}
+
+func (c *VCtx) blockingPoint(fr *Frame, st *State, pos token.Pos) {
+	if len(st.held) > 0 {
+		c.staticObl("block.locked", "no blocking operation while a monitor lock is held at "+c.eng.pos(pos), false, "blocking channel operation while holding "+heldNames(st))
+	}
 }
 
 func (c *VCtx) selectInstr(fr *Frame, st *State, x *ssa.Select) Val {
-	unsup("select")
-	return nil
+	if x.Blocking {
+		c.blockingPoint(fr, st, x.Pos())
+	}
+	c.observe(st)
+	idx := c.fresh("sel", SInt)
+	lo := int64(0)
+	if !x.Blocking {
+		lo = -1
+	}
+	c.fact(And(Ge(idx, IntLit(lo)), Lt(idx, IntLit(int64(len(x.States))))))
+	out := Tuple{idx, c.fresh("selok", SBool)}
+	for i, s := range x.States {
+		if s.Dir != types.RecvOnly {
+			unsup("select with send case")
+		}
+		ch := fr.term(s.Chan)
+		et := s.Chan.Type().Underlying().(*types.Chan).Elem()
+		chosen := Eq(idx, IntLit(int64(i)))
+		if isEmptyStruct(et) {
+			c.fact(Implies(And(st.pc, chosen), And(Not(Eq(ch, Null)), c.isClosed(st, ch))))
+			c.eng.assume("channels of element type struct{} are never sent on (close-only); a receive returns only after close")
+		} else {
+			c.fact(Implies(And(st.pc, chosen), Not(Eq(ch, Null))))
+		}
+		out = append(out, c.freshVal("selv", et))
+	}
+	if !x.Blocking {
+		// default taken only if no close-only channel is ready
+		for _, s := range x.States {
+			ch := fr.term(s.Chan)
+			if isEmptyStruct(s.Chan.Type().Underlying().(*types.Chan).Elem()) {
+				c.fact(Implies(And(st.pc, Eq(idx, IntLit(-1))), Or(Eq(ch, Null), Not(c.isClosed(st, ch)))))
+			}
+		}
+	}
+	c.lastSelect = &selectInfo{instr: x, idx: idx}
+	return out
+}
+
+type selectInfo struct {
+	instr *ssa.Select
+	idx   *Term
 }
